@@ -199,6 +199,18 @@ Case* current() {
   return g_case;
 }
 
+} // namespace vf
+// Sanitizer defaults for the native variants (looked up by the runtimes by name; unused elsewhere). A report ends
+// the child at once, so that it is attributed to the case that was running; NewThreadInvoker threads are joined
+// by the library at process exit, which a child that _exits never reaches: no thread-leak reports.
+extern "C" const char* __tsan_default_options() {
+  return "halt_on_error=1:report_thread_leaks=0:exitcode=66:second_deadlock_stack=1";
+}
+extern "C" const char* __asan_default_options() {
+  return "detect_leaks=1:detect_stack_use_after_return=1:exitcode=67";
+}
+extern "C" int __lsan_do_recoverable_leak_check(void) __attribute__((weak));
+namespace vf {
 bool g_sanOnly = false; // --san-only: the sanitizer is the oracle; semantic verdicts are recorded as inconclusive
 void Case::fail(const std::string& sig0, const std::string& msg0) {
   if (g_sanOnly)
@@ -265,6 +277,11 @@ static void runOneInChild(const Prop& prop, Case& c) {
       c.fail("write-after-free", hb);
   } else {
     prop.run(c);
+    // leak check per case (ASan builds): everything the case allocated must be freed or still reachable
+    if (g_sanOnly && __lsan_do_recoverable_leak_check && __lsan_do_recoverable_leak_check()) {
+      fprintf(stderr, "ERROR: LeakSanitizer: memory leaked by this case\n");
+      _exit(68);
+    }
   }
   accumulateCase(c);
   g_case = nullptr;
@@ -576,6 +593,23 @@ int runMain(int argc, char** argv, const Prop* props, int nprops) {
           }
         }
         if (!key.empty()) {
+          // the operands quoted by UBSan vary from case to case: keep file:line and the kind of error only
+          size_t re = key.find("runtime error:");
+          if (re != std::string::npos) {
+            std::string head = key.substr(0, re + 14), tail;
+            for (size_t i = re + 14; i < key.size(); ++i) {
+              if (isdigit((unsigned char)key[i])) {
+                while (i + 1 < key.size() && isdigit((unsigned char)key[i + 1]))
+                  ++i;
+                tail += 'N';
+              } else
+                tail += key[i];
+            }
+            key = head + tail;
+          }
+          size_t pp = key.find("(pid=");
+          if (pp != std::string::npos)
+            key = key.substr(0, pp);
           // strip addresses / pids to keep the signature stable
           std::string k2;
           for (size_t i = 0; i < key.size() && k2.size() < 140; ++i) {
